@@ -2,6 +2,7 @@
 #include "../../../../common/ast.h"
 #include <cstdint>
 #include <functional>
+#include <vector>
 
 // 前方宣言
 class Interpreter;
@@ -25,11 +26,16 @@ namespace ArrayAccessHelpers {
 // interpreter: インタプリタインスタンス
 // evaluate_expression_func: 式評価関数（再帰呼び出し用）
 // get_struct_member_func: 構造体メンバー取得関数
+// known_indices: the values of this node's index expressions when the caller
+//   has already evaluated them (extract_array_indices(node)); they are used
+//   instead of evaluating the index expressions a second time. nullptr =
+//   evaluate them here.
 int64_t evaluate_array_ref(
     const ASTNode *node, Interpreter &interpreter,
     std::function<int64_t(const ASTNode *)> evaluate_expression_func,
     std::function<Variable(const Variable &, const std::string &)>
-        get_struct_member_func);
+        get_struct_member_func,
+    const std::vector<int64_t> *known_indices = nullptr);
 
 // 配列リテラルの評価（AST_ARRAY_LITERAL）
 // node: 配列リテラルノード
